@@ -1,6 +1,7 @@
 """Configuration of ./check C11 (see pylib/props.py)."""
 CFG = dict(
         coq=["props/C11.vo"],
+        tie=["gen/Tie_C11.vo"],
         model_vo=["model/Graph.vo", "model/Queue.vo", "model/Ancestor.vo"],
         extract="Ex_C11",
         level_text="Theorems over all commit graphs (no size bound) and over EVERY placement/ordering that is a "
